@@ -53,224 +53,225 @@ def run(ctx: Context) -> None:
     ctx.rule('R02.3', "gather / scatter pairing: the rows gathered and the output slots written are the same index array, into an array with one slot per cell (holes keep their slot)", floor=7)
     ctx.rule('R02.4', "face centres are produced in the same order: meshgrid/flatten row-major, ravel of the face coordinates, unpermuted face_x/face_y, or one in-order pass over polygons", floor=6)
     ctx.rule('R02.5', "the spatial index and the validity mask are built over the full polygon array in order; publishing the polygons does not compact or reorder them", floor=4)
+    ctx.rule('R02.6', "the polygon at n is built from cell n's own coordinates: stored bounds are accepted only in the grid's dimension order and synthesised bounds are laid out in it; invalid polygons are located by positions in the full array (facts shared with C06 R06.3 / R06.6)", floor=20)
     ctx.assume("numpy stack/broadcast_to/transpose/reshape(C order) semantics; shapely.polygons(indices=, out=) writes geometry k to out[indices[k]]; STRtree returns positions in its input array")
     ctx.assume("Arakawa C node arrays have one more row and column than the face grid, in the same dimension order (not checked by the code)")
 
+    from . import c06 as _c06
+    from .common import share_obligations as _share
+    _share(ctx, _c06, {'R06.3', 'R06.6'}, 'R02.6')
+
     # ------------------------------------------------------------------ R02.1 (shared facts)
-    from . import c01, c03, c05
-    shared = [(c01, {'R01.2'}), (c03, {'R03.1', 'R03.3'}), (c05, {'R05.1'})]
-    for mod, rules in shared:
-        sub = Context(p, ctx.prop, ctx.tier)
-        sub._flows, sub._cfgs, sub._types = ctx._flows, ctx._cfgs, ctx._types
-        try:
-            mod.run(sub)
-        except Exception as exc:  # the shared module's own check reports details
-            if type(exc).__name__ != 'AbortRules':
-                raise
-        for ob in sub.obligations:
-            if ob.rule in rules:
-                ctx.obligations.append(type(ob)('R02.1', f"[{ob.rule}] {ob.text}", ob.site, ob.function, ob.construct, ob.ok, ob.detail))
-                ctx.instances['R02.1'] = ctx.instances.get('R02.1', 0) + 1
-        ctx.functions_analysed |= sub.functions_analysed
+    with ctx.section('R02.1 (shared facts)'):
+        from . import c01, c03, c05
+        shared = [(c01, {'R01.2'}), (c03, {'R03.1', 'R03.3'}), (c05, {'R05.1'})]
+        from .common import share_obligations
+        for mod, rules in shared:
+            share_obligations(ctx, mod, rules, 'R02.1')
 
     # ------------------------------------------------------------------ R02.2
-    cf_handles = grid_dimension_handles(ctx, f"{GRID}.CFGrid")
-    gd = ctx.func(f"{GRID}.CFGrid.grid_dimensions")
-    ctx.check('R02.2', cf_handles == ['y_dimension', 'x_dimension'], "CF grid_dimensions[face] = [topology.y_dimension, topology.x_dimension]", gd, gd.node,
-              construct=f"grid_dimensions face = {cf_handles}")
-    for fact in polygon_builder_facts(ctx):
-        fi, pts = fact['fi'], fact['points']
-        if fact['kind'] == 'bounds-1d':
-            sh = fact['interp'].env.get('y_size'), fact['interp'].env.get('x_size')
-            ctx.check('R02.2', fact['sources'].shapes.get('self.topology.shape') == [size_sym('y_dimension'), size_sym('x_dimension')],
-                      "topology.shape is (size of y_dimension, size of x_dimension)", fact['shape_fi'] or fi, (fact['shape_fi'] or fi).node,
-                      construct=f"CFGridTopology.shape = {[s.show() for s in fact['sources'].shapes.get('self.topology.shape', [])]}")
-        if not isinstance(pts, Arr):
-            why = pts.why if isinstance(pts, Top) else ('no make_polygons_with_holes(points) result is returned' if pts is None else repr(pts))
-            tops = [t for t in fact['interp'].trace if 'TOP' in t]
-            ctx.check('R02.2', False, "the points array can be derived as (cells, corner, xy)", fi, fact['ret'],
-                      construct=f"{fi.short}: points array not derivable: {why}", detail='; '.join(tops[:3]))
-            continue
-        ok_rank = pts.ndim == 3 and bool(pts.axes[0].merged) and pts.axes[1].size == const(4) and pts.axes[2].size == const(2)
-        ctx.check('R02.2', ok_rank, "points has shape (cells, 4, 2) with the cell axis merged from the grid axes", fi, fact['ret'],
-                  construct=f"{fi.short}: points shape {pts.show()}")
-        if not ok_rank:
-            continue
-        order = merged_order(pts.axes[0])
-        ok_order = len(order) == 2 and [a.size for a in order] == fact['want']
-        ctx.check('R02.2', ok_order, "cells are merged row-major over (first grid dimension, second grid dimension)", fi, fact['ret'],
-                  construct=f"{fi.short}: merge order {[a.show() for a in order]} (wanted {[w.show() for w in fact['want']]})")
-        if len(order) != 2:
-            continue
-        ay, ax = order
-        c_ax, k_ax = pts.axes[1], pts.axes[2]
-        own = True
-        detail = ''
-        for c in range(4):
-            for k in range(2):
-                ls = leaves(fix(fix(pts.body, c_ax.key, c), k_ax.key, k))
-                if not ls:
-                    own, detail = False, f"corner {c} slot {k} has no source"
-                for lf in ls:
-                    if fact['kind'] == 'bounds-1d':
-                        want_key = ax.key if k == 0 else ay.key
-                        if offset_of(lf.index[0], want_key) != 0:
-                            own, detail = False, f"corner {c} slot {k}: {lf.src} is indexed by {lf.index[0].show()}, not by its own {'column' if k == 0 else 'row'}"
-                    elif fact['kind'] == 'bounds-2d':
-                        if offset_of(lf.index[0], ay.key) != 0 or offset_of(lf.index[1], ax.key) != 0:
-                            own, detail = False, f"corner {c} slot {k}: {lf.src} indexed by ({lf.index[0].show()}, {lf.index[1].show()})"
-                    else:
-                        oy, ox = offset_of(lf.index[0], ay.key), offset_of(lf.index[1], ax.key)
-                        if oy not in (0, 1) or ox not in (0, 1):
-                            own, detail = False, f"corner {c} slot {k}: node ({lf.index[0].show()}, {lf.index[1].show()}) is not one of the cell's four surrounding nodes"
-        ctx.check('R02.2', own, "every cell's coordinates are read at that cell's own (row, column)", fi, fact['ret'],
-                  construct=f"{fi.short}: element provenance", detail=detail)
+    with ctx.section('R02.2'):
+        cf_handles = grid_dimension_handles(ctx, f"{GRID}.CFGrid")
+        gd = ctx.func(f"{GRID}.CFGrid.grid_dimensions")
+        ctx.check('R02.2', cf_handles == ['y_dimension', 'x_dimension'], "CF grid_dimensions[face] = [topology.y_dimension, topology.x_dimension]", gd, gd.node,
+                  construct=f"grid_dimensions face = {cf_handles}")
+        for fact in polygon_builder_facts(ctx):
+            fi, pts = fact['fi'], fact['points']
+            if fact['kind'] == 'bounds-1d':
+                sh = fact['interp'].env.get('y_size'), fact['interp'].env.get('x_size')
+                ctx.check('R02.2', fact['sources'].shapes.get('self.topology.shape') == [size_sym('y_dimension'), size_sym('x_dimension')],
+                          "topology.shape is (size of y_dimension, size of x_dimension)", fact['shape_fi'] or fi, (fact['shape_fi'] or fi).node,
+                          construct=f"CFGridTopology.shape = {[s.show() for s in fact['sources'].shapes.get('self.topology.shape', [])]}")
+            if not isinstance(pts, Arr):
+                why = pts.why if isinstance(pts, Top) else ('no make_polygons_with_holes(points) result is returned' if pts is None else repr(pts))
+                tops = [t for t in fact['interp'].trace if 'TOP' in t]
+                ctx.check('R02.2', False, "the points array can be derived as (cells, corner, xy)", fi, fact['ret'],
+                          construct=f"{fi.short}: points array not derivable: {why}", detail='; '.join(tops[:3]))
+                continue
+            ok_rank = pts.ndim == 3 and bool(pts.axes[0].merged) and pts.axes[1].size == const(4) and pts.axes[2].size == const(2)
+            ctx.check('R02.2', ok_rank, "points has shape (cells, 4, 2) with the cell axis merged from the grid axes", fi, fact['ret'],
+                      construct=f"{fi.short}: points shape {pts.show()}")
+            if not ok_rank:
+                continue
+            order = merged_order(pts.axes[0])
+            ok_order = len(order) == 2 and [a.size for a in order] == fact['want']
+            ctx.check('R02.2', ok_order, "cells are merged row-major over (first grid dimension, second grid dimension)", fi, fact['ret'],
+                      construct=f"{fi.short}: merge order {[a.show() for a in order]} (wanted {[w.show() for w in fact['want']]})")
+            if len(order) != 2:
+                continue
+            ay, ax = order
+            c_ax, k_ax = pts.axes[1], pts.axes[2]
+            own = True
+            detail = ''
+            for c in range(4):
+                for k in range(2):
+                    ls = leaves(fix(fix(pts.body, c_ax.key, c), k_ax.key, k))
+                    if not ls:
+                        own, detail = False, f"corner {c} slot {k} has no source"
+                    for lf in ls:
+                        if fact['kind'] == 'bounds-1d':
+                            want_key = ax.key if k == 0 else ay.key
+                            if offset_of(lf.index[0], want_key) != 0:
+                                own, detail = False, f"corner {c} slot {k}: {lf.src} is indexed by {lf.index[0].show()}, not by its own {'column' if k == 0 else 'row'}"
+                        elif fact['kind'] == 'bounds-2d':
+                            if offset_of(lf.index[0], ay.key) != 0 or offset_of(lf.index[1], ax.key) != 0:
+                                own, detail = False, f"corner {c} slot {k}: {lf.src} indexed by ({lf.index[0].show()}, {lf.index[1].show()})"
+                        else:
+                            oy, ox = offset_of(lf.index[0], ay.key), offset_of(lf.index[1], ax.key)
+                            if oy not in (0, 1) or ox not in (0, 1):
+                                own, detail = False, f"corner {c} slot {k}: node ({lf.index[0].show()}, {lf.index[1].show()}) is not one of the cell's four surrounding nodes"
+            ctx.check('R02.2', own, "every cell's coordinates are read at that cell's own (row, column)", fi, fact['ret'],
+                      construct=f"{fi.short}: element provenance", detail=detail)
 
     # ------------------------------------------------------------------ R02.3
-    ug = ctx.func(f"{UGRID}.UGrid._make_polygons")
-    flow = ctx.flow(ug)
-    sp = [c for c in calls_in(ug, nested=True) if callee(ctx, ug, c) == 'shapely.polygons']
-    ctx.need('R02.3', len(sp) == 1, "UGrid._make_polygons builds polygons with shapely.polygons", ug)
-    sc = sp[0]
-    idx = kwarg(sc, 'indices')
-    out = kwarg(sc, 'out')
-    ctx.need('R02.3', idx is not None and out is not None and sc.args, "shapely.polygons is called with coordinates, indices= and out=", ug)
-    # the coordinates are gathered with that same index array as row selector
-    rows_ok = False
-    gathers = [n for n, _ in flow.expand(sc.args[0]) if isinstance(n, ast.Subscript) and isinstance(n.slice, ast.Tuple) and len(n.slice.elts) == 2]
-    for g in gathers:
-        if flow.canon(g.slice.elts[0]) == flow.canon(idx):
-            col = g.slice.elts[1]
-            rows_ok = isinstance(col, ast.Slice) and col.lower is None and col.upper is not None
-            base_arr = flow.resolve(g.value)
-            rows_ok = rows_ok and flow.reaches(g.value, lambda n: isinstance(n, ast.Attribute) and n.attr == 'face_node_array')
-    ctx.check('R02.3', rows_ok, "the face rows gathered are selected by the same index array that is passed as indices=", ug, sc,
-              construct=f"indices={norm_text(idx)}; gathers {[norm_text(g)[:60] for g in gathers]}")
-    iv = flow.resolve(idx)
-    ok_idx = isinstance(iv, ast.Call) and callee(ctx, ug, iv) == 'numpy.flatnonzero'
-    ctx.check('R02.3', ok_idx, "the index array is flatnonzero(<per-face vertex count == this size>): ascending face indexes", ug, sc,
-              construct=f"indices = {norm_text(iv)}")
-    ov = flow.resolve(out)
-    ok_out = (isinstance(ov, ast.Call) and callee(ctx, ug, ov) == 'numpy.full' and ov.args
-              and norm_text(flow.resolve(ov.args[0])).endswith('face_count') and len(ov.args) > 1 and is_none(ov.args[1]))
-    rets = ug.returns()
-    ok_ret = bool(rets) and all(flow.canon(r.value) == flow.canon(out) for r in rets)
-    ctx.check('R02.3', ok_out and ok_ret, "out= is a None-filled array with one slot per face, and that array is returned", ug, sc,
-              construct=f"out = {norm_text(ov)}")
-    # every face is in exactly one batch: loop over unique sizes of the per-face count
-    loops = [n for n in walk_no_nested(ug.node) if isinstance(n, ast.For)]
-    ok_loop = False
-    if len(loops) == 1:
-        itv = flow.resolve(loops[0].iter)
-        ok_loop = isinstance(itv, ast.Call) and callee(ctx, ug, itv) == 'numpy.unique' and isinstance(loops[0].target, ast.Name) \
-            and ok_idx and flow.reaches(iv.args[0], lambda n: isinstance(n, ast.Name) and n.id == loops[0].target.id)
-        if ok_idx and isinstance(flow.resolve(iv.args[0]), ast.Compare):
-            cmp_ = flow.resolve(iv.args[0])
-            ok_loop = ok_loop and isinstance(cmp_.ops[0], ast.Eq) and flow.canon(cmp_.left) == flow.canon(itv.args[0])
-    ctx.check('R02.3', ok_loop, "faces are batched by their own vertex count (each face in exactly one batch)", ug, loops[0] if loops else ug.node)
-    mh = ctx.func(f"{UTILS}.make_polygons_with_holes")
-    flow = ctx.flow(mh)
-    sp = [c for c in calls_in(mh) if callee(ctx, mh, c) == 'shapely.polygons']
-    ctx.need('R02.3', len(sp) == 1, "make_polygons_with_holes builds polygons with shapely.polygons", mh)
-    sc = sp[0]
-    idx, out = kwarg(sc, 'indices'), kwarg(sc, 'out')
-    a0 = flow.resolve(sc.args[0]) if sc.args else None
-    ok = (idx is not None and isinstance(a0, ast.Subscript) and flow.canon(a0.value) == ('param', mh.params[0])
-          and flow.canon(a0.slice) == flow.canon(idx))
-    ctx.check('R02.3', ok, "the rows turned into polygons are points[rows] with rows passed as indices=", mh, sc)
-    iv = flow.resolve(idx) if idx is not None else None
-    ok = False
-    if isinstance(iv, ast.Call) and callee(ctx, mh, iv) == 'numpy.flatnonzero' and iv.args:
-        t = flow.resolve(iv.args[0])
-        ok = (isinstance(t, ast.Call) and isinstance(t.func, ast.Attribute) and t.func.attr == 'all'
-              and isinstance(flow.resolve(t.func.value), ast.Call) and callee(ctx, mh, flow.resolve(t.func.value)) == 'numpy.isfinite'
-              and flow.canon(flow.resolve(t.func.value).args[0]) == ('param', mh.params[0])
-              and norm_text(kwarg(t, 'axis') or (t.args[0] if t.args else ast.Constant(None))) == '(1, 2)')
-    ctx.check('R02.3', ok, "rows = flatnonzero(all coordinates of the row are finite): incomplete cells stay None", mh, sc,
-              construct=f"rows = {norm_text(iv) if iv is not None else '?'}")
-    alloc = [n for n in walk_no_nested(mh.node) if isinstance(n, ast.Assign) and isinstance(n.value, ast.Call) and callee(ctx, mh, n.value) == 'numpy.full']
-    ok = (len(alloc) == 1 and norm_text(alloc[0].value.args[0]) == f"{mh.params[0]}.shape[0]" and is_none(alloc[0].value.args[1])
-          and any(inb and norm_text(st.test) == 'out is None' for st, inb in enclosing_ifs(mh, alloc[0]))
-          and out is not None and isinstance(out, ast.Name) and out.id == 'out'
-          and all(isinstance(r.value, ast.Name) and r.value.id == 'out' for r in mh.returns()))
-    ctx.check('R02.3', ok, "the output has points.shape[0] slots, is passed as out= and returned", mh, alloc[0] if alloc else mh.node)
+    with ctx.section('R02.3'):
+        ug = ctx.func(f"{UGRID}.UGrid._make_polygons")
+        flow = ctx.flow(ug)
+        sp = [c for c in calls_in(ug, nested=True) if callee(ctx, ug, c) == 'shapely.polygons']
+        ctx.need('R02.3', len(sp) == 1, "UGrid._make_polygons builds polygons with shapely.polygons", ug)
+        sc = sp[0]
+        idx = kwarg(sc, 'indices')
+        out = kwarg(sc, 'out')
+        ctx.need('R02.3', idx is not None and out is not None and sc.args, "shapely.polygons is called with coordinates, indices= and out=", ug)
+        # the coordinates are gathered with that same index array as row selector
+        rows_ok = False
+        gathers = [n for n, _ in flow.expand(sc.args[0]) if isinstance(n, ast.Subscript) and isinstance(n.slice, ast.Tuple) and len(n.slice.elts) == 2]
+        for g in gathers:
+            if flow.canon(g.slice.elts[0]) == flow.canon(idx):
+                col = g.slice.elts[1]
+                rows_ok = isinstance(col, ast.Slice) and col.lower is None and col.upper is not None
+                base_arr = flow.resolve(g.value)
+                rows_ok = rows_ok and flow.reaches(g.value, lambda n: isinstance(n, ast.Attribute) and n.attr == 'face_node_array')
+        ctx.check('R02.3', rows_ok, "the face rows gathered are selected by the same index array that is passed as indices=", ug, sc,
+                  construct=f"indices={norm_text(idx)}; gathers {[norm_text(g)[:60] for g in gathers]}")
+        iv = flow.resolve(idx)
+        ok_idx = isinstance(iv, ast.Call) and callee(ctx, ug, iv) == 'numpy.flatnonzero'
+        ctx.check('R02.3', ok_idx, "the index array is flatnonzero(<per-face vertex count == this size>): ascending face indexes", ug, sc,
+                  construct=f"indices = {norm_text(iv)}")
+        ov = flow.resolve(out)
+        ok_out = (isinstance(ov, ast.Call) and callee(ctx, ug, ov) == 'numpy.full' and ov.args
+                  and norm_text(flow.resolve(ov.args[0])).endswith('face_count') and len(ov.args) > 1 and is_none(ov.args[1]))
+        rets = ug.returns()
+        ok_ret = bool(rets) and all(flow.canon(r.value) == flow.canon(out) for r in rets)
+        ctx.check('R02.3', ok_out and ok_ret, "out= is a None-filled array with one slot per face, and that array is returned", ug, sc,
+                  construct=f"out = {norm_text(ov)}")
+        # every face is in exactly one batch: loop over unique sizes of the per-face count
+        loops = [n for n in walk_no_nested(ug.node) if isinstance(n, ast.For)]
+        ok_loop = False
+        if len(loops) == 1:
+            itv = flow.resolve(loops[0].iter)
+            ok_loop = isinstance(itv, ast.Call) and callee(ctx, ug, itv) == 'numpy.unique' and isinstance(loops[0].target, ast.Name) \
+                and ok_idx and flow.reaches(iv.args[0], lambda n: isinstance(n, ast.Name) and n.id == loops[0].target.id)
+            if ok_idx and isinstance(flow.resolve(iv.args[0]), ast.Compare):
+                cmp_ = flow.resolve(iv.args[0])
+                ok_loop = ok_loop and isinstance(cmp_.ops[0], ast.Eq) and flow.canon(cmp_.left) == flow.canon(itv.args[0])
+        ctx.check('R02.3', ok_loop, "faces are batched by their own vertex count (each face in exactly one batch)", ug, loops[0] if loops else ug.node)
+        mh = ctx.func(f"{UTILS}.make_polygons_with_holes")
+        flow = ctx.flow(mh)
+        sp = [c for c in calls_in(mh) if callee(ctx, mh, c) == 'shapely.polygons']
+        ctx.need('R02.3', len(sp) == 1, "make_polygons_with_holes builds polygons with shapely.polygons", mh)
+        sc = sp[0]
+        idx, out = kwarg(sc, 'indices'), kwarg(sc, 'out')
+        a0 = flow.resolve(sc.args[0]) if sc.args else None
+        ok = (idx is not None and isinstance(a0, ast.Subscript) and flow.canon(a0.value) == ('param', mh.params[0])
+              and flow.canon(a0.slice) == flow.canon(idx))
+        ctx.check('R02.3', ok, "the rows turned into polygons are points[rows] with rows passed as indices=", mh, sc)
+        iv = flow.resolve(idx) if idx is not None else None
+        ok = False
+        if isinstance(iv, ast.Call) and callee(ctx, mh, iv) == 'numpy.flatnonzero' and iv.args:
+            t = flow.resolve(iv.args[0])
+            ok = (isinstance(t, ast.Call) and isinstance(t.func, ast.Attribute) and t.func.attr == 'all'
+                  and isinstance(flow.resolve(t.func.value), ast.Call) and callee(ctx, mh, flow.resolve(t.func.value)) == 'numpy.isfinite'
+                  and flow.canon(flow.resolve(t.func.value).args[0]) == ('param', mh.params[0])
+                  and norm_text(kwarg(t, 'axis') or (t.args[0] if t.args else ast.Constant(None))) == '(1, 2)')
+        ctx.check('R02.3', ok, "rows = flatnonzero(all coordinates of the row are finite): incomplete cells stay None", mh, sc,
+                  construct=f"rows = {norm_text(iv) if iv is not None else '?'}")
+        alloc = [n for n in walk_no_nested(mh.node) if isinstance(n, ast.Assign) and isinstance(n.value, ast.Call) and callee(ctx, mh, n.value) == 'numpy.full']
+        ok = (len(alloc) == 1 and norm_text(alloc[0].value.args[0]) == f"{mh.params[0]}.shape[0]" and is_none(alloc[0].value.args[1])
+              and any(inb and norm_text(st.test) == 'out is None' for st, inb in enclosing_ifs(mh, alloc[0]))
+              and out is not None and isinstance(out, ast.Name) and out.id == 'out'
+              and all(isinstance(r.value, ast.Name) and r.value.id == 'out' for r in mh.returns()))
+        ctx.check('R02.3', ok, "the output has points.shape[0] slots, is passed as out= and returned", mh, alloc[0] if alloc else mh.node)
 
     # ------------------------------------------------------------------ R02.4
-    Y, X = size_sym('y_dimension'), size_sym('x_dimension')
-    fc1 = ctx.func(f"{GRID}.CFGrid1D.face_centres")
-    it, src = interpret(ctx, fc1, {'topology.longitude': ('lon', [X]), 'topology.latitude': ('lat', [Y]),
-                                   'self.topology.longitude': ('lon', [X]), 'self.topology.latitude': ('lat', [Y])}, {})
-    val = it.returns[0][1] if it.returns else None
-    ok = False
-    detail = repr(val) if not isinstance(val, Arr) else val.show()
-    if isinstance(val, Arr) and val.ndim == 2 and val.axes[0].merged and val.axes[1].size == const(2):
-        order = merged_order(val.axes[0])
-        if len(order) == 2 and [a.size for a in order] == [Y, X]:
-            l0 = leaves(fix(val.body, val.axes[1].key, 0))
-            l1 = leaves(fix(val.body, val.axes[1].key, 1))
-            ok = (len(l0) == 1 and len(l1) == 1 and l0[0].src == 'lon' and l1[0].src == 'lat'
-                  and offset_of(l0[0].index[0], order[1].key) == 0 and offset_of(l1[0].index[0], order[0].key) == 0)
-        detail = f"shape {val.show()}, merge order {[a.show() for a in order]}"
-    ctx.check('R02.4', ok, "CFGrid1D face centres: (lon[x], lat[y]) for cells merged row-major over (y, x)", fc1, it.returns[0][0] if it.returns else fc1.node,
-              construct=f"CFGrid1D.face_centres: {detail}")
-    for qual, lon_txt, lat_txt in ((f"{GRID}.CFGrid2D.face_centres", 'self.topology.longitude', 'self.topology.latitude'),
-                                   (f"{ARAKAWA}.ArakawaC.face_centres", 'self.face.longitude', 'self.face.latitude')):
-        fi = ctx.func(qual)
-        flow = ctx.flow(fi)
-        cs = [c for c in calls_in(fi) if callee(ctx, fi, c) == 'numpy.column_stack']
+    with ctx.section('R02.4'):
+        Y, X = size_sym('y_dimension'), size_sym('x_dimension')
+        fc1 = ctx.func(f"{GRID}.CFGrid1D.face_centres")
+        it, src = interpret(ctx, fc1, {'topology.longitude': ('lon', [X]), 'topology.latitude': ('lat', [Y]),
+                                       'self.topology.longitude': ('lon', [X]), 'self.topology.latitude': ('lat', [Y])}, {})
+        val = it.returns[0][1] if it.returns else None
         ok = False
-        if len(cs) == 1 and cs[0].args and isinstance(cs[0].args[0], ast.Tuple) and len(cs[0].args[0].elts) == 2:
-            want = [f"self.ravel({lon_txt}).values", f"self.ravel({lat_txt}).values"]
-            got = [norm_text(flow.resolve(e)) for e in cs[0].args[0].elts]
-            ok = got == want and all(flow.reaches(r.value, lambda n: n is cs[0]) for r in fi.returns())
-        ctx.check('R02.4', ok, "face centres = column_stack((ravel(face longitude), ravel(face latitude))): ravel gives index order", fi,
-                  cs[0] if cs else fi.node)
-    ufc = ctx.func(f"{UGRID}.UGrid.face_centres")
-    flow = ctx.flow(ufc)
-    cs = [c for c in calls_in(ufc) if callee(ctx, ufc, c) == 'numpy.column_stack']
-    ok = False
-    if len(cs) == 1 and isinstance(cs[0].args[0], ast.Tuple) and len(cs[0].args[0].elts) == 2:
-        a, b = (flow.canon(e) for e in cs[0].args[0].elts)
-        ok = 'face_x' in repr(a) and 'face_y' in repr(b) and 'face_y' not in repr(a) and 'face_x' not in repr(b)
-        tests = [(norm_text(st.test), inb) for st, inb in enclosing_ifs(ufc, cs[0])]
-        ok = ok and any(inb and 'face_x is not None' in t and 'face_y is not None' in t for t, inb in tests)
-    ctx.check('R02.4', ok, "UGRID face centres: (face_x, face_y) as stored, when both exist", ufc, cs[0] if cs else ufc.node)
-    fallback = [r for r in ufc.returns() if isinstance(r.value, ast.Attribute) and norm_text(r.value) == 'super().face_centres']
-    ctx.check('R02.4', len(fallback) == 1, "otherwise the generic centroid implementation is used", ufc, fallback[0] if fallback else ufc.node)
-    bfc = ctx.func(f"{BASE}.face_centres")
-    flow = ctx.flow(bfc)
-    comps = [n for n in ast.walk(bfc.node) if isinstance(n, ast.ListComp)]
-    ok = False
-    if len(comps) == 1:
-        g = comps[0].generators[0]
-        ok = (len(comps[0].generators) == 1 and not g.ifs and flow.canon(g.iter) == ('attr', ('param', 'self'), 'polygons')
-              and isinstance(comps[0].elt, ast.IfExp) and 'centroid' in norm_text(comps[0].elt.body)
-              and norm_text(comps[0].elt.test) == f"{g.target.id} is not None" and 'nan' in norm_text(comps[0].elt.orelse))
-    ctx.check('R02.4', ok, "generic face centres: one entry per polygon in order, NaN for holes", bfc, comps[0] if comps else bfc.node)
+        detail = repr(val) if not isinstance(val, Arr) else val.show()
+        if isinstance(val, Arr) and val.ndim == 2 and val.axes[0].merged and val.axes[1].size == const(2):
+            order = merged_order(val.axes[0])
+            if len(order) == 2 and [a.size for a in order] == [Y, X]:
+                l0 = leaves(fix(val.body, val.axes[1].key, 0))
+                l1 = leaves(fix(val.body, val.axes[1].key, 1))
+                ok = (len(l0) == 1 and len(l1) == 1 and l0[0].src == 'lon' and l1[0].src == 'lat'
+                      and offset_of(l0[0].index[0], order[1].key) == 0 and offset_of(l1[0].index[0], order[0].key) == 0)
+            detail = f"shape {val.show()}, merge order {[a.show() for a in order]}"
+        ctx.check('R02.4', ok, "CFGrid1D face centres: (lon[x], lat[y]) for cells merged row-major over (y, x)", fc1, it.returns[0][0] if it.returns else fc1.node,
+                  construct=f"CFGrid1D.face_centres: {detail}")
+        for qual, lon_txt, lat_txt in ((f"{GRID}.CFGrid2D.face_centres", 'self.topology.longitude', 'self.topology.latitude'),
+                                       (f"{ARAKAWA}.ArakawaC.face_centres", 'self.face.longitude', 'self.face.latitude')):
+            fi = ctx.func(qual)
+            flow = ctx.flow(fi)
+            cs = [c for c in calls_in(fi) if callee(ctx, fi, c) == 'numpy.column_stack']
+            ok = False
+            if len(cs) == 1 and cs[0].args and isinstance(cs[0].args[0], ast.Tuple) and len(cs[0].args[0].elts) == 2:
+                want = [f"self.ravel({lon_txt}).values", f"self.ravel({lat_txt}).values"]
+                got = [norm_text(flow.resolve(e)) for e in cs[0].args[0].elts]
+                ok = got == want and all(flow.reaches(r.value, lambda n: n is cs[0]) for r in fi.returns())
+            ctx.check('R02.4', ok, "face centres = column_stack((ravel(face longitude), ravel(face latitude))): ravel gives index order", fi,
+                      cs[0] if cs else fi.node)
+        ufc = ctx.func(f"{UGRID}.UGrid.face_centres")
+        flow = ctx.flow(ufc)
+        cs = [c for c in calls_in(ufc) if callee(ctx, ufc, c) == 'numpy.column_stack']
+        ok = False
+        if len(cs) == 1 and isinstance(cs[0].args[0], ast.Tuple) and len(cs[0].args[0].elts) == 2:
+            a, b = (flow.canon(e) for e in cs[0].args[0].elts)
+            ok = 'face_x' in repr(a) and 'face_y' in repr(b) and 'face_y' not in repr(a) and 'face_x' not in repr(b)
+            tests = [(norm_text(st.test), inb) for st, inb in enclosing_ifs(ufc, cs[0])]
+            ok = ok and any(inb and 'face_x is not None' in t and 'face_y is not None' in t for t, inb in tests)
+        ctx.check('R02.4', ok, "UGRID face centres: (face_x, face_y) as stored, when both exist", ufc, cs[0] if cs else ufc.node)
+        fallback = [r for r in ufc.returns() if isinstance(r.value, ast.Attribute) and norm_text(r.value) == 'super().face_centres']
+        ctx.check('R02.4', len(fallback) == 1, "otherwise the generic centroid implementation is used", ufc, fallback[0] if fallback else ufc.node)
+        bfc = ctx.func(f"{BASE}.face_centres")
+        flow = ctx.flow(bfc)
+        comps = [n for n in ast.walk(bfc.node) if isinstance(n, ast.ListComp)]
+        ok = False
+        if len(comps) == 1:
+            g = comps[0].generators[0]
+            ok = (len(comps[0].generators) == 1 and not g.ifs and flow.canon(g.iter) == ('attr', ('param', 'self'), 'polygons')
+                  and isinstance(comps[0].elt, ast.IfExp) and 'centroid' in norm_text(comps[0].elt.body)
+                  and norm_text(comps[0].elt.test) == f"{g.target.id} is not None" and 'nan' in norm_text(comps[0].elt.orelse))
+        ctx.check('R02.4', ok, "generic face centres: one entry per polygon in order, NaN for holes", bfc, comps[0] if comps else bfc.node)
 
     # ------------------------------------------------------------------ R02.5
-    st = ctx.func(f"{BASE}.strtree")
-    flow = ctx.flow(st)
-    for r in st.returns():
-        v = flow.resolve(r.value)
-        ok = (isinstance(v, ast.Call) and (dotted(v.func) or '').endswith('STRtree') and len(v.args) == 1 and not v.keywords
-              and flow.canon(v.args[0]) == ('attr', ('param', 'self'), 'polygons'))
-        ctx.check('R02.5', ok, "STRtree(self.polygons): tree positions are linear indexes", st, r)
-    mk = ctx.func(f"{BASE}.mask")
-    from .common import polygons_mask_ok
-    ok, how = polygons_mask_ok(ctx, mk)
-    ctx.check('R02.5', ok, "mask[n] = polygons[n] is not None, one entry per slot in order", mk, mk.node, construct=f"Convention.mask: {how}")
-    pg = ctx.func(f"{BASE}.polygons")
-    flow = ctx.flow(pg)
-    mkc = [c for c in method_calls(pg, '_make_polygons') if flow.canon(c.func.value) == ('param', 'self')]
-    ok = len(mkc) == 1 and all(flow.resolve(r.value) is mkc[0] for r in pg.returns()) and len(pg.returns()) >= 1
-    ctx.check('R02.5', ok, "the published array is the very array built by _make_polygons (no compaction, no reordering)", pg,
-              pg.returns()[0] if pg.returns() else pg.node)
-    stores = [n for n in walk_no_nested(pg.node) if isinstance(n, ast.Assign) and isinstance(n.targets[0], ast.Subscript)
-              and mkc and flow.resolve(n.targets[0].value) is mkc[0]]
-    ok = all(is_none(n.value) for n in stores)
-    ctx.check('R02.5', ok, "the only in-place change to it is replacing entries by None", pg, stores[0] if stores else pg.node,
-              construct=f"stores into the polygon array: {[norm_text(s) for s in stores]}")
+    with ctx.section('R02.5'):
+        st = ctx.func(f"{BASE}.strtree")
+        flow = ctx.flow(st)
+        for r in st.returns():
+            v = flow.resolve(r.value)
+            ok = (isinstance(v, ast.Call) and (dotted(v.func) or '').endswith('STRtree') and len(v.args) == 1 and not v.keywords
+                  and flow.canon(v.args[0]) == ('attr', ('param', 'self'), 'polygons'))
+            ctx.check('R02.5', ok, "STRtree(self.polygons): tree positions are linear indexes", st, r)
+        mk = ctx.func(f"{BASE}.mask")
+        from .common import polygons_mask_ok
+        ok, how = polygons_mask_ok(ctx, mk)
+        ctx.check('R02.5', ok, "mask[n] = polygons[n] is not None, one entry per slot in order", mk, mk.node, construct=f"Convention.mask: {how}")
+        pg = ctx.func(f"{BASE}.polygons")
+        flow = ctx.flow(pg)
+        mkc = [c for c in method_calls(pg, '_make_polygons') if flow.canon(c.func.value) == ('param', 'self')]
+        ok = len(mkc) == 1 and all(flow.resolve(r.value) is mkc[0] for r in pg.returns()) and len(pg.returns()) >= 1
+        ctx.check('R02.5', ok, "the published array is the very array built by _make_polygons (no compaction, no reordering)", pg,
+                  pg.returns()[0] if pg.returns() else pg.node)
+        stores = [n for n in walk_no_nested(pg.node) if isinstance(n, ast.Assign) and isinstance(n.targets[0], ast.Subscript)
+                  and mkc and flow.resolve(n.targets[0].value) is mkc[0]]
+        ok = all(is_none(n.value) for n in stores)
+        ctx.check('R02.5', ok, "the only in-place change to it is replacing entries by None", pg, stores[0] if stores else pg.node,
+                  construct=f"stores into the polygon array: {[norm_text(s) for s in stores]}")
+
 
 
 # --------------------------------------------------------------------------- checker self-test
